@@ -22,6 +22,16 @@ pub trait NamingContext {
 
     /// Apply serde naming convention transformations
     fn apply_naming_convention(&self, field_name: &str, convention: RenameRule) -> String {
+        if convention == RenameRule::CamelCase {
+            // serde_rename_rule slices the PascalCase form at byte 1, which panics when that form
+            // is empty (name made of underscores) or starts with a multi-byte character
+            let pascal = RenameRule::PascalCase.apply_to_field(field_name);
+            let mut chars = pascal.chars();
+            return match chars.next() {
+                Some(first) => first.to_ascii_lowercase().to_string() + chars.as_str(),
+                None => field_name.to_string(),
+            };
+        }
         convention.apply_to_field(field_name)
     }
 
